@@ -344,8 +344,42 @@ def r4(R, tus):
                     if uses and not reassigned:
                         R.check(False, "C20.R4", f.file, n.line or f.line, f.name, "%s after free(%s)" % (estr(n.e)[:50], name),
                                 "the block is %s after it was freed" % ("freed again" if isfree else "used"))
-    if nalloc < 10:
-        R.fail("C20.R4 saw %d allocation sites, expected at least 10" % nalloc)
+    # ---- moving allocators: the returned block replaces the one passed in
+    nmove = 0
+    for f in cfront.all_funcs(tus):
+        tops = [(st, e) for st in swalk(f.body) for e in cfront.stmt_exprs(st)]
+        seen_calls = set()
+        for st, e in tops:
+            for x in ewalk(e):
+                if x.k == "call" and x.name in ("dset_new", "realloc") and x.a and id(x) not in seen_calls:
+                    seen_calls.add(id(x))
+                    nmove += 1
+                    arg = bounds.strip_addr(x.a[0])
+                    while arg.k == "cast":
+                        arg = arg.a[0]
+                    src_ptr = arg.name if arg.k == "var" else None
+                    # find the assignment whose right-hand side is this call
+                    target = None
+                    for y in ewalk(e):
+                        if y.k == "asg" and y.op == "=":
+                            r = y.a[1]
+                            while r.k == "cast":
+                                r = r.a[0]
+                            if r is x and y.a[0].k == "var":
+                                target = y.a[0].name
+                    if st.k == "decl" and st.init is not None:
+                        r = st.init
+                        while r.k == "cast":
+                            r = r.a[0]
+                        if r is x:
+                            target = st.var.name
+                    R.check(target is not None and (src_ptr is None or target == src_ptr), "C20.R4", f.file, x.line or f.line, f.name,
+                            "%s = %s(%s, ...)" % (target, x.name, estr(x.a[0])),
+                            "%s may move the block (realloc): its result must replace the pointer that was handed in; here the old "
+                            "pointer stays in use after the block may have been freed" % x.name,
+                            desc="%s:%s %s result replaces %s" % (f.file, f.name, x.name, src_ptr))
+    if nalloc < 10 or nmove < 5:
+        R.fail("C20.R4 saw %d allocation sites and %d moving-allocator calls, expected at least 10 and 5" % (nalloc, nmove))
 
 
 def reachable_from(cfg, start):
